@@ -24,7 +24,8 @@ TOTAL_ACCESSORS = {
     "core::borrow::Borrow::borrow", "core::iter::traits::iterator::Iterator::rev", "core::iter::traits::iterator::Iterator::enumerate",
     "core::iter::traits::iterator::Iterator::by_ref", "core::iter::traits::iterator::Iterator::copied",
     "core::iter::traits::iterator::Iterator::cloned", "core::iter::traits::iterator::Iterator::chain",
-    "alloc::vec::Vec::iter", "alloc::vec::Vec::as_slice", "alloc::collections::vec_deque::VecDeque::iter",
+    "alloc::vec::Vec::iter", "alloc::vec::Vec::as_slice", "core::array::<impl [T; N]>::as_slice", "core::array::<impl [T; N]>::iter",
+    "core::array::<impl [T; N]>::each_ref", "alloc::collections::vec_deque::VecDeque::iter",
     "alloc::collections::linked_list::LinkedList::iter", "alloc::collections::btree::map::BTreeMap::iter",
     "alloc::collections::btree::map::BTreeMap::values", "alloc::collections::btree::map::BTreeMap::keys",
     "alloc::collections::btree::set::BTreeSet::iter", "alloc::collections::binary_heap::BinaryHeap::iter",
@@ -39,6 +40,8 @@ TOTAL_ACCESSORS = {
     "<alloc::sync::Arc as core::ops::deref::Deref>::deref", "<alloc::vec::Vec as core::ops::deref::Deref>::deref",
     "<smallvec::SmallVec as core::ops::deref::Deref>::deref",
 }
+# accessors that split their receiver into a tuple of parts: total only if every part is traced
+SPLITTING_ACCESSORS = {"alloc::collections::vec_deque::VecDeque::as_slices": 2}
 # known partial traversals (named for better diagnostics; anything not TOTAL is rejected anyway)
 PARTIAL_HINT = ("skip", "take", "filter", "step_by", "first", "last", "get", "nth", "skip_while", "take_while", "find",
                 "split_at", "split_first", "split_last", "peekable")
@@ -49,8 +52,10 @@ def canon(name):
 
 
 class Site:
-    def __init__(self, bb, kind, ty_s, chain, root, line, raw):
+    def __init__(self, bb, kind, ty_s, chain, root, line, raw, via=None, probs=()):
         self.bb, self.kind, self.ty_s, self.chain, self.root, self.line, self.raw = bb, kind, ty_s, chain, root, line, raw
+        self.via = via          # local helper function through which the trace call is reached (None: direct)
+        self.probs = list(probs)  # problems found inside that helper (partial loop, skipping condition ...)
 
 
 def _defs(body):
@@ -127,7 +132,9 @@ def _local_chains(prog, body, defs, local, depth, seen):
     return out
 
 
-def trace_sites(prog, body):
+def trace_sites(prog, body, root=1, depth=0):
+    """Trace calls of a body, and - through crate-local helper functions that receive a value derived from
+    parameter `root` - the trace calls of those helpers, re-expressed in the caller's terms (helper summaries)."""
     defs = _defs(body)
     sites = []
     for bi, bb in enumerate(body["blocks"]):
@@ -136,6 +143,7 @@ def trace_sites(prog, body):
             continue
         dn = canon(norm(t["f"]["def"]))
         if dn not in TRACE_FNS:
+            sites += _helper_sites(prog, body, defs, bi, t, root, depth)
             continue
         kind = TRACE_FNS[dn]
         gargs = t["f"].get("args", [])
@@ -155,6 +163,69 @@ def trace_sites(prog, body):
         ch = chains_of(prog, body, defs, val)
         sites.append(Site(bi, kind, ty_s, ch, None, t["l"], t))
     return sites
+
+
+def _helper_sites(prog, body, defs, bi, t, root, depth):
+    """A call to a crate-local function that is handed a value derived from `root`: its own trace calls (found by
+    analysing the helper with that parameter as the root) count as trace calls of the caller. The helper must be
+    total by the same rules (accessors, loops, conditions); whatever it skips is reported at the call."""
+    f = t["f"]
+    r = f.get("resolved")
+    if depth > 3 or not f.get("local") or not r or r.get("ik") != "Item":
+        return []
+    name = norm(r["def"])
+    keys = prog.seed_n.get(name)
+    if not keys:
+        return []
+    hbody = prog.bodies[keys[0]]
+    out = []
+    for ai, a in enumerate(t["args"]):
+        ch = chains_of(prog, body, defs, a)
+        if not any(rt == root for (rt, _, _) in ch):
+            continue
+        k = ai + 1
+        hsites = trace_sites(prog, hbody, root=k, depth=depth + 1)
+        if not hsites:
+            continue
+        hprobs = loop_problems(prog, hbody, hsites) + conditional_problems(prog, hbody, hsites, root=k)
+        subst = _generic_subst(prog, name, f)
+        for hs in hsites:
+            comp = set()
+            for (r0, acc0, fl0) in ch:
+                for (r1, acc1, fl1) in hs.chain:
+                    if r1 == k:
+                        comp.add((r0, acc0 + acc1, fl0 + fl1))
+                    elif r1 == "const":
+                        comp.add(("const", (), ()))
+                    else:
+                        comp.add(("other", acc1, fl1))
+            ty_s = _subst_ty(hs.ty_s, subst) if hs.ty_s else None
+            out.append(Site(bi, hs.kind, ty_s, comp, None, t["l"], t, via=name,
+                            probs=["in helper `%s`: %s" % (name, p_) for p_ in (hprobs + hs.probs)]))
+        hprobs = []
+    return out
+
+
+def _generic_subst(prog, name, f):
+    """helper's generic parameter name -> the caller's type string, from the call's generic arguments."""
+    recs = prog.fn_n.get(name) or []
+    if not recs:
+        return None
+    gens = recs[0].get("generics") or []
+    gargs = f.get("args", [])
+    if len(gens) != len(gargs):
+        return None
+    m = {}
+    for g, a in zip(gens, gargs):
+        if g.get("kind") == "type" and "ty" in a:
+            m[g["name"]] = prog.ty_s(a["ty"])
+    return m
+
+
+def _subst_ty(ty_s, subst):
+    if subst is None:
+        return None
+    return re.sub(r"[A-Za-z_][A-Za-z0-9_]*", lambda m: subst.get(m.group(0), m.group(0)), ty_s)
 
 
 def loop_problems(prog, body, sites):
@@ -234,7 +305,7 @@ def _must_pass(body, start, target, via):
     return True
 
 
-def conditional_problems(prog, body, sites):
+def conditional_problems(prog, body, sites, root=1):
     probs = []
     defs = _defs(body)
     rets = set(cfg.return_blocks(body))
@@ -283,13 +354,13 @@ def conditional_problems(prog, body, sites):
             if all(x in avoid for x in succs) and all(x in hit for x in succs):
                 # both outcomes can reach and can avoid (loop head re-tests): decided elsewhere
                 continue
-            if not _allowed_condition(prog, body, defs, t["o"]):
+            if not _allowed_condition(prog, body, defs, t["o"], root=root):
                 probs.append("trace call at line %s is conditional on a test (line %s) that is neither a variant test of "
                              "a value derived from `self` nor a NEEDS_TRACE guard: the value can be skipped" % (s.line, t["l"]))
     return probs
 
 
-def _allowed_condition(prog, body, defs, op, depth=0):
+def _allowed_condition(prog, body, defs, op, depth=0, root=1):
     if op.get("k") == "const":
         return "uneval" in op and op["uneval"]["s"].endswith("::NEEDS_TRACE")
     if op.get("k") not in ("copy", "move") or op["p"]["p"]:
@@ -299,12 +370,12 @@ def _allowed_condition(prog, body, defs, op, depth=0):
         if kind == "rv" and d["k"] == "discr":
             ch = chains_of(prog, body, defs, {"k": "copy", "p": d["p"]})
             roots = {r for (r, a, f) in ch}
-            if roots and roots <= {1}:
+            if roots and roots <= {root}:
                 ok_any = True
             else:
                 return False
         elif kind == "rv" and d["k"] == "use" and depth < 4:
-            if _allowed_condition(prog, body, defs, d["o"], depth + 1):
+            if _allowed_condition(prog, body, defs, d["o"], depth + 1, root=root):
                 ok_any = True
             else:
                 return False
@@ -361,11 +432,28 @@ def analyse_trace(prog, im, key):
             bad = sorted(str(r) for r in roots - {1})
             if not (roots & {1}) or "other" in bad:
                 probs.append("trace call at line %s: the traced value does not derive from `self` (sources: %s)" % (s.line, sorted(map(str, roots))))
+        probs += s.probs
         for (r, acc, fl) in s.chain:
             for a in acc:
+                if a in SPLITTING_ACCESSORS:
+                    continue
                 if a not in TOTAL_ACCESSORS:
                     hint = " (a partial traversal)" if a.split("::")[-1] in PARTIAL_HINT else " (not in the reviewed table of total accessors)"
                     probs.append("trace call at line %s reaches its value through `%s`%s" % (s.line, a, hint))
+    # 1a. an accessor that splits its receiver into parts is total only if every part reaches a trace call
+    for a, n in SPLITTING_ACCESSORS.items():
+        parts = set()
+        used = False
+        for s in sites:
+            for (r, acc, fl) in s.chain:
+                if a in acc:
+                    used = True
+                    idx = [p_[1] for p_ in fl if p_[0] == "f"]
+                    if idx:
+                        parts.add(idx[-1])
+        if used and parts != set(range(n)):
+            probs.append("`%s` yields %d parts, only part(s) %s are traced: the elements in the others are skipped" % (
+                a, n, sorted(parts)))
     # 1b. a trace call may be conditional only on variant tests of self-derived values (enum arms, Option
     #     results of total accessors, iterator exhaustion) or on NEEDS_TRACE guards
     probs += conditional_problems(prog, body, sites)
